@@ -210,7 +210,7 @@ def check(run, cases=None):
             a_far = a.copy()
             a_far[:dm] = np.array([4.0e12, -3.0e12, 5.0e12][:dm])
             for name, fn in (('oplus_self', lambda x: x.jacobian_self_oplus_other_wrt_self(b)), ('oplus_self_compact', lambda x: x.jacobian_self_oplus_other_wrt_self_compact(b)),
-                             ('point_self', lambda x: x.jacobian_self_oplus_point_wrt_self(pt))):
+                             ('point_self', lambda x: x.jacobian_self_oplus_point_wrt_self(pt)), ('point_point', lambda x: x.jacobian_self_oplus_point_wrt_point(pt))):
                 try:
                     dvf = float(np.max(np.abs(np.asarray(fn(a_far), dtype=float) - np.asarray(fn(a), dtype=float))))
                 except Exception as e:  # noqa
